@@ -1651,6 +1651,7 @@ def run_history(run, tf, qkeras, bn_folding_utils, rng, c, plan, tmpdir, hid):
   L = tf.keras.layers
   K.clear_session()
   pending = []
+  train_raised = False
   cur = {k: np.array(c[k]) for k in PKEYS}
   lay = None
   try:
@@ -1952,6 +1953,15 @@ def run_history(run, tf, qkeras, bn_folding_utils, rng, c, plan, tmpdir, hid):
     except core.InfraError:
       raise
     except Exception as e:  # pylint: disable=broad-except
+      if kd == "train":
+        # the training step is only a means of moving the layer's state between two INFERENCE observations; the
+        # property says nothing about training-mode calls, and on the unchanged tree a channels_first
+        # QConv2DBatchnorm raises in its training path (InvalidArgumentError: the batch statistics are broadcast
+        # along the last axis).  The history ends here, unjudged from this step on (counted in the evidence).
+        run.count("history:training-step-raises:%s" % type(e).__name__)
+        ops_desc.append(desc)
+        train_raised = True
+        break
       pend("callable", {"observer": kd, "why": "raises"},
                       {"error": "%s: %s" % (type(e).__name__, str(e)[:300])}, None)
       ops_desc.append(desc)
@@ -1960,7 +1970,8 @@ def run_history(run, tf, qkeras, bn_folding_utils, rng, c, plan, tmpdir, hid):
     obs.append(ro)
   # the step counter after the history: only set_weights / load_weights / explicit assignment moved it
   it_real = int(lay._iteration.numpy())   # pylint: disable=protected-access
-  if it_real != iteration:
+  # (a training call that raised may have advanced the counter before it failed: nothing after it is judged)
+  if it_real != iteration and not train_raised:
     pending.append(("inference_is_not_a_step", {"observer": "history"},
                     {"what": "_iteration moved without a training step", "expected": iteration, "observed": it_real}, None))
   ops_json = ops_json[:len(obs)]
